@@ -219,6 +219,10 @@ def gen_case(rng, big):
             p["dtype"] = "f8"
             p["vals"] = "nan"
         p["out_dtype"] = rng.choice([None, None, None, "f8", "f4"])
+        if p["fn"] == "cumsum" and p["method"] == "blelloch" and p.get("axis", 0) is not None and rng.random() < 0.3:
+            # an associative but NOT commutative merge: strings under + (the scan must keep the operands in order)
+            p["strings"] = True
+            p["out_dtype"] = None
         wrel = 2
     p["shape"] = shape
     chunks, classes = [], []
@@ -403,6 +407,10 @@ def check_case(p, ctx):
                     kw = {}
                     if p.get("out_dtype"):
                         kw["dtype"] = p["out_dtype"]
+                    if p.get("strings") and a.size:
+                        a = np.array([chr(97 + i % 26) + ("" if i < 26 else str(i // 26)) for i in range(a.size)], dtype=object).reshape(a.shape)
+                        x = da.from_array(a, chunks=x.chunks)
+                        ctx.count("non_commutative_scans")
                     ev = getattr(np, fn)(a, axis=p["axis"], **kw)
                     y = getattr(da, fn)(x, axis=p["axis"], method=p["method"], **kw)
                     label = f"{fn}.{p['method']}"
